@@ -50,7 +50,7 @@ ARG1 = ["int", "float", "str", "A", "object"]
 def _grammar(level):
   if level == 0:   # directed runs for the recorded findings
     return [("bool",), ("List", ("int",)), ("Iterable", ("float",)),
-            ("Optional", ("List", ("int",)))]
+            ("Optional", ("List", ("int",))), ("int",), ("Tuple2", ("int",), ("str",))]
   g = [(s,) for s in SCALARS]
   full = level >= 1
   for c in ("List", "Sequence", "Iterable", "TupleN", "Set", "Optional"):
@@ -372,7 +372,7 @@ def sites(i, j):
   ok = CTX.vm._check_return(NODE, var, ann)  # pylint: disable=protected-access
   n1 = len(CTX.errorlog)
   ret_err = (not ok, n1 - n0)
-  CTX.check_annotation_type_mismatch(NODE, "x", ann, var, (), False)
+  CTX.check_annotation_type_mismatch(NODE, "x", ann, var, (), True)  # allow_none=True: as vm._apply_annotation calls it
   n2 = len(CTX.errorlog)
   return arg_err, ret_err, n2 - n1
 
@@ -445,6 +445,8 @@ def kf_class(t, v, site):
     return "none-as-bool"
   if site == "arg" and _hetero(v) and not member(v, t):
     return "arg-any-view"
+  if site == "asg" and v is None and not member(v, t):
+    return "asg-none-allowed"
   return None
 
 
